@@ -316,8 +316,12 @@ def concatenate(
     """
 
     if not isinstance(files, list):
-        # glob.glob lists the matches in directory-enumeration order, which depends on the file system
-        files = sorted(glob.glob(files))
+        if Path(files).is_file():
+            # the name of an existing file is that file, also when it contains pattern characters
+            files = [files]
+        else:
+            # glob.glob lists the matches in directory-enumeration order, which depends on the file system
+            files = sorted(glob.glob(str(files)))
 
     files = [str(Path(file).resolve()) for file in files if _is_raw(file)]
 
